@@ -20,6 +20,7 @@ Tie to /repo (every run):
 """
 import concurrent.futures
 import itertools
+import os
 import math
 import warnings
 from fractions import Fraction as F
@@ -336,7 +337,9 @@ def run_space(ck, thorough):
                         except Exception as e:
                             rejected.append((periodic, nf, nc, k, nested, type(e).__name__))
                             continue
-                        cases.append({'periodic': periodic, 'nf': nf, 'nc': nc, 'k': k, 'nested': nested, 'rorder': ro, 'P': P, 'R': R, 'T': T})
+                        cases.append({'periodic': periodic, 'nf': nf, 'nc': nc, 'k': k, 'nested': nested, 'rorder': ro, 'P': P, 'R': R, 'T': T,
+                                      'dup_of': next((c for c in cases if (c['periodic'], c['nf'], c['k'], c['nested']) == (periodic, nf, k, nested)
+                                                      and np.array_equal(c['P'], P)), None)})
     ck.cov['space_rejected_by_code'] = sorted(set(r[:4] + (r[5],) for r in rejected))
     # configurations with k <= nc (periodic) resp. k <= nc + 1 (non-periodic) must be accepted by the code
     for (periodic, nf, nc, k, nested, err) in rejected:
@@ -351,6 +354,8 @@ def run_space(ck, thorough):
     groups = []
     cur, size = [], 0
     for c in cases:
+        if c['dup_of'] is not None:
+            continue          # the same prolongation matrix (another rorder) is already in a file
         cur.append(c)
         size += c['nf'] * c['nc']
         if size > 6000:
@@ -372,10 +377,14 @@ def run_space(ck, thorough):
             gen_fail(ck, f.split('/')[-1], out)
             return
         results += parse_coq_value(eval_outputs(out)[0])
-    assert len(results) == len(cases)
+    uniq = [c for c in cases if c['dup_of'] is None]
+    assert len(results) == len(uniq)
+    for c, r in zip(uniq, results):
+        c['coq'] = r
     nbad = 0
     worst = F(0)
-    for c, (nrows, bad) in zip(cases, results):
+    for c in cases:
+        nrows, bad = (c['dup_of'] or c)['coq']
         periodic, nf, nc, k, nested, P = c['periodic'], c['nf'], c['nc'], c['k'], c['nested'], c['P']
         key = ('space', periodic, nf, k, nested)
         ck.case(key=key, nontrivial=True, sample={'kind': 'space-1d', 'periodic': periodic, 'nvars': [nf, nc], 'iorder': k,
@@ -702,7 +711,7 @@ def run_structure(ck, thorough):
                     # plus pairs inside the support
                     for _ in range(200):
                         p = rng.choice(fi)
-                        q = tuple(int(rng.choice(np.flatnonzero(P1[p[a]]))) for a in range(dim))
+                        q = tuple(int(rng.choice(list(np.flatnonzero(P1[p[a]])) or [0])) for a in range(dim))
                         pairs.append((p, q))
                     for p, q in pairs:
                         exp = F(1)
@@ -736,7 +745,7 @@ def run_structure(ck, thorough):
         if ok:
             for _ in range(600):
                 p = (rng.randrange(nfa), rng.randrange(nfb))
-                q = (int(rng.choice(np.flatnonzero(Pa[p[0]]))), int(rng.choice(np.flatnonzero(Pb[p[1]])))) if rng.random() < 0.6 \
+                q = (int(rng.choice(list(np.flatnonzero(Pa[p[0]])) or [0])), int(rng.choice(list(np.flatnonzero(Pb[p[1]])) or [0]))) if rng.random() < 0.6 \
                     else (rng.randrange(nca), rng.randrange(ncb))
                 eP = fr(Pa[p[0], q[0]]) * fr(Pb[p[1], q[1]])
                 eR = fr(Ra[q[0], p[0]]) * fr(Rb[q[1], p[1]])
@@ -923,8 +932,9 @@ def run_fft(ck, thorough):
                 fun = lambda x: sum(a * np.cos(2 * np.pi * m * x) + b * np.sin(2 * np.pi * m * x) for m, (a, b) in enumerate(amp))
                 G = cls(FakeProb(nc2, 1.0 / nc2).init)
                 comps = ['impl', 'expl'] if cls is imex_mesh else [None]
+                fac = {None: 1.0, 'impl': 1.0, 'expl': -2.0}      # different data per component
                 for cn in comps:
-                    (getattr(G, cn) if cn else G)[:] = fun(xc)
+                    (getattr(G, cn) if cn else G)[:] = fac[cn] * fun(xc)
                 ck.case(key=('fft1d', nf, nc2, cls.__name__), nontrivial=nc2 >= 4)
                 ck.traces += 1
                 try:
@@ -937,12 +947,12 @@ def run_fft(ck, thorough):
                         bv = np.asarray(getattr(back, cn) if cn else back)
                         ok = ok and fv.shape == (nf,)
                         if ok:
-                            errs += [float(np.abs(fv - fun(xf)).max()), float(np.abs(bv - fun(xc)).max())]
+                            errs += [float(np.abs(fv - fac[cn] * fun(xf)).max()), float(np.abs(bv - fac[cn] * fun(xc)).max())]
                     err = max(errs) if errs else float('inf')
                     exc = None
                 except Exception as e:
                     ok, err, exc = False, float('inf'), '%s: %s' % (type(e).__name__, e)
-                scale = 1 + sum(abs(a) + abs(b) for a, b in amp)
+                scale = 2 * (1 + sum(abs(a) + abs(b) for a, b in amp))
                 worst = max(worst, err / scale if ok else 0.0)
                 if not ok or err > FFT_TOL * scale:
                     nbad += 1
@@ -1037,15 +1047,25 @@ def run(ck):
                'equal counts and one complete (family, type)); space: grids 2^l / 2^l-1, orders 2,4,6,8, shortcut on/off, every row; helpers: seeded dyadic inputs; '
                'a case is distinct when its configuration tuple is new, non-trivial when source and destination differ and have >= 2 points')
     ck.agg = Agg(ck)
-    ck.check_props(required=REQUIRED)
+    if os.environ.get('C11_SELFTEST_SKIP_PROPS') == '1':
+        # mutation self-tests only: the Coq development does not depend on /repo, so re-checking it per mutant is skipped
+        ck.notes.append('C11_SELFTEST_SKIP_PROPS=1: property theorems NOT re-checked in this run')
+        ck.obligation('property theorems re-checked', False, 'skipped by C11_SELFTEST_SKIP_PROPS (self-test mode)', kind='theorem')
+    else:
+        ck.check_props(required=REQUIRED)
     ck.log('property theorems checked')
-    run_nodes(ck, thorough)
-    ck.log('node tables done')
-    run_space(ck, thorough)
-    ck.log('space tables done')
-    run_helpers(ck, thorough)
-    ck.log('helper mirror done')
-    run_structure(ck, thorough)
-    run_nocoarse(ck)
-    run_fft(ck, thorough)
+    import traceback
+    sections = [('node tables', lambda: run_nodes(ck, thorough)), ('space tables', lambda: run_space(ck, thorough)),
+                ('helper mirror', lambda: run_helpers(ck, thorough)), ('structure', lambda: run_structure(ck, thorough)),
+                ('nocoarse', lambda: run_nocoarse(ck)), ('fft', lambda: run_fft(ck, thorough))]
+    for name, fn in sections:
+        try:
+            fn()
+        except Exception:
+            # a crash of one section (implementation or harness raised) must not hide what the other sections found
+            tb = traceback.format_exc()
+            ck.obligation('section %s ran to completion' % name, False, tb[-1500:], kind='harness')
+            ck.agg.violation('section "%s" of the check crashed: %s' % (name, tb.strip().splitlines()[-1]), {'traceback': tb},
+                             match={'kind': 'crash', 'section': name}, no_input=True)
+        ck.log(name + ' done')
     ck.agg.flush()
